@@ -63,6 +63,9 @@ def cases_for(ctx):
     cases.append({'behaviours': ['equal', 'different', 'equal', 'player_raises'], 'dedicated': True, 'recycle': 5, 'keep': True, 'int_ids': True, 'pair': 'I'})
     cases.append({'behaviours': ['equal', 'different', 'equal', 'player_raises'], 'dedicated': False, 'recycle': 5, 'keep': True, 'int_ids': True, 'pair': 'I'})
     cases.append({'behaviours': ['equal', 'exit0', 'different', 'equal'], 'dedicated': True, 'recycle': 5, 'keep': False})
+    # more than ten recordings while the clock the equalizer reads does not advance (a regression run under a frozen clock)
+    cases.append({'behaviours': ['equal', 'different'] * 6, 'dedicated': False, 'recycle': 5, 'keep': False, 'frozen_clock': True, 'pair': 'F'})
+    cases.append({'behaviours': ['equal', 'different'] * 6, 'dedicated': True, 'recycle': 5, 'keep': False, 'frozen_clock': True, 'pair': 'F'})
     # an equalizer built without a configuration next to another such equalizer whose settings were changed after construction
     cases.append({'behaviours': ['equal', 'different', 'player_raises', 'equal'], 'dedicated': False, 'recycle': 5, 'keep': False, 'default_config': True})
     if ctx.quick:
